@@ -9,8 +9,9 @@ LANE=$1; PATCH=$2; TIER=$3; shift 3
 L=/tmp/mut/lane$LANE
 mkdir -p $L/verif
 if [ ! -d $L/wt ]; then git -C /repo worktree add --detach $L/wt HEAD >/dev/null 2>&1 || exit 2; fi
-git -C $L/wt checkout -q --detach $(git -C /repo rev-parse HEAD) 2>/dev/null
 git -C $L/wt checkout -q -- . ; git -C $L/wt clean -fdq
+git -C $L/wt checkout -q --detach $(git -C /repo rev-parse HEAD) || { echo "CHECKOUT-FAILED"; exit 2; }
+[ "$(git -C $L/wt rev-parse HEAD)" = "$(git -C /repo rev-parse HEAD)" ] || { echo "CHECKOUT-FAILED"; exit 2; }
 if [ "$PATCH" != "-" ]; then git -C $L/wt apply "$PATCH" || { echo "PATCH-FAILED $PATCH"; exit 2; }; fi
 rsync -a --delete --exclude target --exclude gen --exclude target-build.log /verif/sim/ $L/verif/sim/
 if [ ! -d $L/target ]; then
